@@ -19,6 +19,14 @@ fn us(v: &Value) -> usize {
     v.as_u64().unwrap_or(0) as usize
 }
 
+fn batching(k: usize) -> BatchingMethod {
+    match k {
+        0 => BatchingMethod::Linear,
+        1 => BatchingMethod::Algebraic,
+        _ => BatchingMethod::Horner,
+    }
+}
+
 fn build(c: &Value) -> Context {
     let ext = match us(&c["ext"]) {
         1 => FieldExtension::None,
@@ -26,7 +34,7 @@ fn build(c: &Value) -> Context {
         _ => FieldExtension::Cubic,
     };
     let options = ProofOptions::new(us(&c["q"]), us(&c["blow"]), us(&c["grind"]) as u32, ext, us(&c["fold"]), us(&c["rem"]),
-        BatchingMethod::Linear, BatchingMethod::Linear);
+        batching(us(&c["cb"])), batching(us(&c["db"])));
     let ti = TraceInfo::new_multi_segment(us(&c["mw"]), us(&c["aw"]), us(&c["ar"]), 1usize << us(&c["le"]), bytes_of(&c["meta"]));
     let nc = us(&c["nc"]);
     match c["mod"].as_str().unwrap_or("") {
